@@ -288,15 +288,27 @@ def task_section(pr, repo):
     fi = repo.func(SEC)
     pr.under_contract(fi)
     rows = [[R('ph%d' % i), R('qu%d' % i), R('qf%d' % i)] for i in range(2)]
-    ex.contracts[GP] = lambda ex, ctx, fi_, a, k, so: [list(r) for r in rows]
-    ex.contracts[PI] = lambda ex, ctx, fi_, a, k, so: (R('pi_folded'), R('pi_unfolded'))
+    asked = {}
+
+    def conf_of(fi_, a, k):
+        names = [x.arg for x in fi_.node.args.args][1:]          # parameters after self
+        if 'conformation' in k:
+            return k['conformation']
+        i = names.index('conformation') if 'conformation' in names else None
+        if i is not None and i < len(a):
+            return a[i]
+        d = fi_.node.args.defaults
+        return 'AVR' if d else None                                  # the declared default
+    ex.contracts[GP] = lambda ex, ctx, fi_, a, k, so: (asked.setdefault('profile', conf_of(fi_, a, k)), [list(r) for r in rows])[1]
+    ex.contracts[PI] = lambda ex, ctx, fi_, a, k, so: (asked.setdefault('pi', conf_of(fi_, a, k)), (R('pi_folded'), R('pi_unfolded')))[1]
     MC = repo.cls('propka.molecular_container.MolecularContainer')
 
     def thunk(ex, ctx):
         mol = record('mol', MC, options=record('options', None, grid=(0.0, 14.0, 0.1)))
-        s = ex.call_function(fi, [mol], {'conformation': 'AVR'})
+        asked.clear()
+        s = ex.call_function(fi, [mol], {'conformation': '2A'})
         ok = isinstance(s, FmtStr)
-        conj = [ok]
+        conj = [ok, asked.get('profile') == '2A' and asked.get('pi') == '2A']
         if ok:
             P = s.parts
             shape = [p[0] for p in P]
@@ -309,8 +321,8 @@ def task_section(pr, repo):
                 # "The pI is {folded} (folded) and {unfolded} (unfolded)"
                 conj.append(P[3][1] == 'The pI is ' and P[5][1] == ' (folded) and ' and P[7][1] == ' (unfolded)\n')
                 conj.append(And(FmtStr.values_of(P[4])[0] == R('pi_folded'), FmtStr.values_of(P[6])[0] == R('pi_unfolded')))
-        ctx.oblige('charge section: header "pH unfolded folded", each profile row printed as (ph, unfolded, folded), '
-                   'pI sentence carries (folded, unfolded) in this order', And(*conj))
+        ctx.oblige('charge section: charge profile AND pI are those of the conformation asked for; header "pH unfolded folded", each '
+                   'profile row printed as (ph, unfolded, folded), pI sentence carries (folded, unfolded) in this order', And(*conj))
         return s
     pr.explore(ex, thunk, SEC)
 
@@ -365,7 +377,7 @@ def bounded(pr):
                         break
                 if bad and len(viol) < 3:
                     viol.append({'what': '%s %s grid %r: %s' % (name, opts, grid, bad), 'replay': None})
-            for window, prec in (((0.0, 14.0), 1e-4), ((2.0, 12.0), 1e-2)):
+            for window, prec in (((0.0, 14.0), 1e-4), ((2.0, 12.0), 1e-2), ((0.0, 14.0), 1e-10), ((-10.0, 30.0), 1e-9)):
                 ev += 1
                 pif, piu = mol.get_pi('AVR', grid=window, precision=prec)
                 for x, folded, nm in ((pif, True, 'folded'), (piu, False, 'unfolded')):
@@ -377,5 +389,5 @@ def bounded(pr):
                                                                                    hh(x + prec, folded)), 'replay': None})
     pr.bounded.append({'name': 'C09-monitor: charge profile and pI vs independent Henderson-Hasselbalch evaluation',
                        'evaluations': ev, 'distinct_nontrivial': len(distinct),
-                       'bound': '%d structures x {all groups, 3 listed groups} x %d grids, 2 pI windows' % (len(names), len(grids)),
+                       'bound': '%d structures x {all groups, 3 listed groups} x %d grids, 4 pI windows/precisions (down to 1e-10)' % (len(names), len(grids)),
                        'rule': 'whole-pipeline runs; profile rows and pI recomputed from group pKa values', 'violations': viol})
